@@ -20,6 +20,11 @@ def run(ctx):
                       "non-raising continuation is the identity case", floor=5)
     ctx.rule("R14.b", "edit_constant: every constant flag cleared before the yield is set again in the finally, on the class Parameter and on the instance Parameter", floor=2)
     ctx.rule("R14.d", "at construction every constant parameter (other than name) is referenced on the instance, so that a later class-level set cannot rebind what an existing instance holds", floor=1)
+    ctx.rule("R14.e", "inside param only the two sanctioned routes (_sync_refs, Time.__call__) unlock constants with edit_constant; no other internal route lifts the guard", floor=1)
+    ctx.rule("R14.f", "no assignment route through Parameter.__set__ returns normally without having passed the constant/readonly test (incl. the early return for asynchronous references)", floor=1)
+    ctx.rule("R14.g", "the class-level parameter mapping that edit_constant holds across its body is never mutated in place by cache invalidation", floor=1)
+    ctx.rule("R14.h", "only edit_constant clears a constant flag: no other function of param/numbergen assigns `<parameter>.constant = False`", floor=1)
+    ctx.rule("R14.i", "edit_constant restores the very Parameter objects it unlocked (by identity), not only whatever a by-name lookup finds on exit", floor=1)
     ctx.rule("R14.c", "Parameterized.name is declared constant; Parameter.__init__ sets constant whenever readonly is true", floor=2)
     ctx.not_decided += ["histories involving per-instance Parameter copies created earlier", "as_uninitialized (deliberately not armed, see C05 exclusions)"]
 
@@ -57,8 +62,9 @@ def run(ctx):
             ctx.ok("R14.a", f, s, "store on the non-constant arm")
     raises = [n for n in cfg.live_nodes() if n.kind == "stmt" and isinstance(n.ast, ast.Raise)]
     ro = [r for r in raises if has(cfg.conditions(r), "self.readonly", True)]
-    if ro and not any(has(cfg.conditions(r), "obj is None", True) or has(cfg.conditions(r), "obj is None", False) for r in ro):
-        ctx.ok("R14.a", f, ro[0], "read-only raise is unconditional on the readonly arm (instance and class level)")
+    main_ro = [r for r in ro if not (has(cfg.conditions(r), "obj is None", True) or has(cfg.conditions(r), "obj is None", False))]
+    if main_ro:
+        ctx.ok("R14.a", f, main_ro[0], "read-only raise is unconditional on the readonly arm (instance and class level)")
     elif ro:
         ctx.fail("R14.a", f, ro[0], "the read-only raise is restricted to instance or class level only")
     else:
@@ -161,3 +167,84 @@ def run(ctx):
                      input="constant=True, default=None; a = Cls(); Cls.x = obj -> a.x is obj")
         else:
             ctx.ok("R14.d", sp, n, "every constant parameter other than name is selected")
+
+    # ---------------------------------------------------------------- R14.e
+    # frozen who-may-unlock table, one reason each
+    UNLOCKERS = {
+        "param.parameterized.Parameters._sync_refs": "a linked constant mirrors its reference",
+        "param.parameters.Time.__call__": "documented way to change the constant time_type of a Time object, together with the time value",
+    }
+    n_unl = 0
+    for g in ctx.repo.all_funcs("param"):
+        for w in ast.walk(g.node):
+            if isinstance(w, (ast.With, ast.AsyncWith)):
+                for it in w.items:
+                    if isinstance(it.context_expr, ast.Call) and norm(it.context_expr.func).split(".")[-1] == "edit_constant":
+                        n_unl += 1
+                        if g.qualname in UNLOCKERS:
+                            ctx.ok("R14.e", g, w, "sanctioned internal unlock: %s" % UNLOCKERS[g.qualname])
+                        else:
+                            ctx.fail("R14.e", g, w, "%s lifts the constant guard with edit_constant: values arriving on this route rebind constant parameters of a constructed object "
+                                                    "without TypeError" % g.qualname, key="%s::internal-unlock" % g.qualname,
+                                     input="obj.c = coroutine_function on a constant allow_refs parameter rebinds c when the coroutine completes")
+    ctx.require(n_unl >= 1, "the edit_constant use in _sync_refs was not found")
+
+    # ---------------------------------------------------------------- R14.f
+    tests = {n.id for n in cfg.live_nodes() if n.kind == "test" and any(
+        isinstance(a, ast.Attribute) and a.attr in ("constant", "readonly") and norm(a.value) == "self" for a in ast.walk(n.ast))}
+    reach = cfg.reachable_from([cfg.entry], stop=lambda n: n.id in tests, labels={"n", "t", "f"})
+    if any(r is cfg.exit for r in reach):
+        p_ = cfg.path(cfg.entry, cfg.exit, avoid=lambda n: n.id in tests) or [cfg.entry, cfg.exit]
+        ctx.fail("R14.f", f, p_[-2] if len(p_) > 1 else f.node,
+                 "Parameter.__set__ can return normally without testing self.constant / self.readonly: on this route a constant or read-only parameter is (re)linked without TypeError",
+                 witness=cfg.witness(p_), key=f.qualname + "::guard-bypass",
+                 input="p.c = coroutine_function on a constant/readonly allow_refs parameter: no TypeError, the link is installed")
+    else:
+        ctx.ok("R14.f", f, f.node, "every normal return has passed the constant/readonly test")
+
+    from checks.shared import memo_not_mutated_in_place
+    memo_not_mutated_in_place(ctx, "R14.g")
+
+    # ---------------------------------------------------------------- R14.h
+    n_clear = 0
+    for g in ctx.repo.all_funcs():
+        for st in ast.walk(g.node):
+            if isinstance(st, ast.Assign) and isinstance(st.value, ast.Constant) and st.value.value is False \
+                    and any(isinstance(t, ast.Attribute) and t.attr == "constant" for t in st.targets):
+                n_clear += 1
+                if g.qualname == "param.parameterized.edit_constant":
+                    ctx.ok("R14.h", g, st, "the sanctioned unlock")
+                else:
+                    ctx.fail("R14.h", g, st, "%s clears a constant flag by hand (`%s`) instead of using edit_constant: the flag of a per-instance copy created in between is never set again" % (
+                        g.qualname, norm(st)), key="%s::ad-hoc-unlock" % g.qualname,
+                        input="t = param.Time(); t(5, time_type=float); t.time_type = int is accepted afterwards")
+    ctx.require(n_clear >= 1, "the unlock in edit_constant was not found")
+
+    # ---------------------------------------------------------------- R14.i
+    ec_ = ctx.repo.func("param.parameterized.edit_constant")
+    unl = [st for st in ast.walk(ec_.node) if isinstance(st, ast.Assign) and isinstance(st.value, ast.Constant) and st.value.value is False
+           and any(isinstance(t, ast.Attribute) and t.attr == "constant" and isinstance(t.value, ast.Name) for t in st.targets)]
+    ok_i = False
+    if unl:
+        objvar = unl[0].targets[0].value.id
+        recorded = [c for c in ast.walk(ec_.node) if isinstance(c, ast.Call) and isinstance(c.func, ast.Attribute) and c.func.attr == "append"
+                    and any(isinstance(n_, ast.Name) and n_.id == objvar for a in c.args for n_ in ast.walk(a))]
+        if recorded:
+            lst = norm(recorded[0].func.value)
+            for t_ in ast.walk(ec_.node):
+                if isinstance(t_, ast.Try):
+                    for lp in (x for s_ in t_.finalbody for x in ast.walk(s_) if isinstance(x, ast.For)):
+                        if norm(lp.iter) == lst:
+                            bound = {n_.id for n_ in ast.walk(lp.target) if isinstance(n_, ast.Name)}
+                            if any(isinstance(st, ast.Assign) and isinstance(st.value, ast.Constant) and st.value.value is True
+                                   and any(isinstance(tg, ast.Attribute) and tg.attr == "constant" and isinstance(tg.value, ast.Name) and tg.value.id in bound for tg in st.targets)
+                                   for st in ast.walk(lp)):
+                                ok_i = True
+    if ok_i:
+        ctx.ok("R14.i", ec_, unl[0], "the unlocked Parameter objects are recorded and set constant again themselves")
+    else:
+        ctx.fail("R14.i", ec_, unl[0] if unl else ec_.node,
+                 "edit_constant restores only `type(obj).param[name]` / `obj.param[name]` looked up on exit; if the body replaced one of them (e.g. a class-level set on a subclass "
+                 "copies the inherited Parameter), the object that was unlocked -- the ancestor's Parameter -- stays constant=False for good",
+                 key=ec_.qualname + "::restore-by-name-only",
+                 input="class B(A) inherits constant x; with edit_constant(B()): B.x = 5  ->  A.param.x.constant is False afterwards")
